@@ -27,6 +27,11 @@ class TaskError(Exception):
     pass
 
 
+class TaskAbort(BaseException):
+    """A task that ends the way sys.exit() or an interruption ends it: with an exception that is not an Exception.
+    The worker thread that ran it ends with it (as a thread does); the pool's bookkeeping must survive that."""
+
+
 class EmptyGroupError(TaskError):
     """A legal exception whose truth value is False."""
 
@@ -102,6 +107,10 @@ class PoolRun(object):
                     exc = EmptyGroupError(tid) if param == "falsy" else TaskError(tid)
                     run.outcomes[tid] = ("raise", exc)
                     raise exc
+                if kind == "abort":
+                    exc = TaskAbort(tid)
+                    run.outcomes[tid] = ("raise", exc)
+                    raise exc
                 obj = [tid]
                 run.outcomes[tid] = ("ret", obj)
                 return obj
@@ -154,7 +163,7 @@ class PoolRun(object):
                         out = "value:%s:%s" % (tid, same)
                     except OSError:
                         out = "timeout:%s" % tid
-                    except TaskError as ex:
+                    except (TaskError, TaskAbort) as ex:
                         exp = self.outcomes.get(tid)
                         same = exp is not None and exp[0] == "raise" and exp[1] is ex
                         out = "raised:%s:%s" % (tid, same)
@@ -270,7 +279,7 @@ class PoolRun(object):
                     s.emit("progress", tid, True)
                 except OSError:
                     s.emit("progress", tid, False)
-                except TaskError:
+                except (TaskError, TaskAbort):
                     s.emit("progress", tid, True)
         s.emit("open_all")
         self.all_open = True
@@ -285,7 +294,7 @@ class PoolRun(object):
                 done = "value:%s" % (exp is not None and exp[0] == "ret" and exp[1] is val)
             except OSError:
                 done = "never"
-            except TaskError as ex:
+            except (TaskError, TaskAbort) as ex:
                 exp = self.outcomes.get(tid)
                 done = "raised:%s" % (exp is not None and exp[0] == "raise" and exp[1] is ex)
             except core.SimAbort:
